@@ -1,0 +1,112 @@
+//go:build verif
+
+package optracker
+
+// Contracts for the govc verifier (/verif). Comment-only.
+
+// the tracker status an operation of a given type and phase is reported with
+//@ spec func opStatus(typ OperationType, ph Phase) api.TrackerStatus = ite(typ == OperationPin, ite(ph == PhaseError, api.TrackerStatusPinError, ite(ph == PhaseQueued, api.TrackerStatusPinQueued, ite(ph == PhaseInProgress, api.TrackerStatusPinning, ite(ph == PhaseDone, api.TrackerStatusPinned, api.TrackerStatusUndefined)))), ite(typ == OperationUnpin, ite(ph == PhaseError, api.TrackerStatusUnpinError, ite(ph == PhaseQueued, api.TrackerStatusUnpinQueued, ite(ph == PhaseInProgress, api.TrackerStatusUnpinning, ite(ph == PhaseDone, api.TrackerStatusUnpinned, api.TrackerStatusUndefined)))), ite(typ == OperationRemote, api.TrackerStatusRemote, ite(typ == OperationShard, api.TrackerStatusSharded, api.TrackerStatusUndefined))))
+//@ spec func ongoing(ph Phase) bool = ph != PhaseError && ph != PhaseDone
+
+// invariant of the operation table: entries are real operations filed under their pin's CID
+//@ spec func tableInv(opt *OperationTracker) bool = forall k cid.Cid :: haskey(opt.operations, k) ==> opt.operations[k] != nil && opt.operations[k].pin != nil && opt.operations[k].pin.Cid == k
+
+//@ func (op *Operation) ToTrackerStatus
+//@   property C05 C06
+//@   ensures res == opStatus(op.opType, op.phase)
+//@   modifies nothing
+
+//@ func (op *Operation) Phase
+//@   property C05 C06
+//@   ensures res == op.phase
+//@   modifies nothing
+
+//@ func (op *Operation) Type
+//@   property C05 C06
+//@   ensures res == op.opType
+//@   modifies nothing
+
+//@ func (op *Operation) Cid
+//@   property C05 C06
+//@   ensures res == op.pin.Cid
+//@   modifies nothing
+
+//@ func (op *Operation) SetPhase
+//@   property C05
+//@   ensures op.phase == ph && op.opType == old(op.opType) && op.pin == old(op.pin) && op.error == old(op.error)
+//@   ensures forall o *Operation :: o != op ==> *o == old(*o)
+//@   modifies heap(Operation)
+
+//@ func (op *Operation) SetError
+//@   property C05
+//@   ensures op.phase == PhaseError && op.opType == old(op.opType) && op.pin == old(op.pin)
+//@   ensures forall o *Operation :: o != op ==> *o == old(*o)
+//@   modifies heap(Operation)
+
+//@ func (op *Operation) Cancelled
+//@   property C05
+//@   modifies nothing
+
+//@ func (op *Operation) Cancel
+//@   property C05
+//@   modifies nothing
+
+//@ func NewOperation
+//@   property C05
+//@   ensures res != nil && fresh(res) && res.pin == pin && res.opType == typ && res.phase == ph
+//@   modifies nothing
+
+// "at most one current operation per CID": the table is a map; an ongoing operation of the
+// same type is kept (nil returned, table unchanged), anything else is cancelled and replaced.
+//@ func (opt *OperationTracker) TrackNewOperation
+//@   property C05
+//@   requires tableInv(opt) && pin != nil
+//@   ensures [table-invariant] tableInv(opt)
+//@   ensures [dedupe] haskey(old(opt.operations), pin.Cid) && old(opt.operations[pin.Cid].opType) == typ && ongoing(old(opt.operations[pin.Cid].phase)) ==> res == nil && opt.operations == old(opt.operations)
+//@   ensures [replace] !(haskey(old(opt.operations), pin.Cid) && old(opt.operations[pin.Cid].opType) == typ && ongoing(old(opt.operations[pin.Cid].phase))) ==> res != nil && fresh(res) && haskey(opt.operations, pin.Cid) && opt.operations[pin.Cid] == res && res.pin == pin && res.opType == typ && res.phase == ph
+//@   ensures [others-untouched] forall k cid.Cid :: k != pin.Cid ==> (haskey(opt.operations, k) <==> haskey(old(opt.operations), k)) && opt.operations[k] == old(opt.operations[k])
+//@   ensures [ops-untouched] forall o *Operation :: !fresh(o) ==> *o == old(*o)
+//@   ensures [self-untouched] forall t *OperationTracker :: t != opt ==> *t == old(*t)
+//@   modifies heap(OperationTracker), heap(Operation)
+
+// Clean removes only the identical operation
+//@ func (opt *OperationTracker) Clean
+//@   property C05
+//@   requires tableInv(opt) && op != nil && op.pin != nil
+//@   ensures [table-invariant] tableInv(opt)
+//@   ensures haskey(old(opt.operations), op.pin.Cid) && old(opt.operations[op.pin.Cid]) == op ==> !haskey(opt.operations, op.pin.Cid)
+//@   ensures !(haskey(old(opt.operations), op.pin.Cid) && old(opt.operations[op.pin.Cid]) == op) ==> opt.operations == old(opt.operations)
+//@   ensures forall k cid.Cid :: k != op.pin.Cid ==> (haskey(opt.operations, k) <==> haskey(old(opt.operations), k)) && opt.operations[k] == old(opt.operations[k])
+//@   ensures forall t *OperationTracker :: t != opt ==> *t == old(*t)
+//@   modifies heap(OperationTracker)
+
+//@ func (opt *OperationTracker) Status
+//@   requires tableInv(opt)
+//@   property C06
+//@   ensures res2 <==> haskey(opt.operations, c)
+//@   ensures res2 ==> res1 == opStatus(opt.operations[c].opType, opt.operations[c].phase)
+//@   modifies nothing
+
+// an operation's report: queued / in-progress / error of the last operation on the CID
+//@ func (opt *OperationTracker) GetExists
+//@   requires tableInv(opt)
+//@   property C06 C05
+//@   ensures res2 <==> haskey(opt.operations, c)
+//@   ensures res2 ==> res1 != nil && fresh(res1) && res1.Status == opStatus(opt.operations[c].opType, opt.operations[c].phase) && res1.Cid == opt.operations[c].pin.Cid && res1.Peer == opt.pid
+//@   ensures !res2 ==> res1 == nil
+//@   modifies nothing
+
+// SetError only touches finished operations (done or already in error), never remote ones
+//@ func (opt *OperationTracker) SetError
+//@   requires tableInv(opt)
+//@   property C05
+//@   ensures haskey(opt.operations, c) && opt.operations[c].opType != OperationRemote && (old(opt.operations[c].phase) == PhaseDone || old(opt.operations[c].phase) == PhaseError) ==> opt.operations[c].phase == PhaseError
+//@   ensures haskey(opt.operations, c) && !(opt.operations[c].opType != OperationRemote && (old(opt.operations[c].phase) == PhaseDone || old(opt.operations[c].phase) == PhaseError)) ==> opt.operations[c].phase == old(opt.operations[c].phase)
+//@   ensures opt.operations == old(opt.operations)
+//@   modifies heap(Operation)
+
+//@ func (opt *OperationTracker) unsafePinInfo
+//@   property C06 C05
+//@   ensures op != nil ==> res.Status == opStatus(op.opType, op.phase) && res.Cid == op.pin.Cid && res.Peer == opt.pid
+//@   ensures op == nil ==> res.Status == api.TrackerStatusUnpinned && res.Cid == cid.Undef && res.Peer == opt.pid
+//@   modifies nothing
